@@ -230,6 +230,61 @@ def run(repo, rep, tier):
             return False
         return True
 
+    def loops_around(f, st):
+        out = []
+
+        def rec(body, stack):
+            for x in body:
+                if x is st:
+                    out.extend(stack)
+                    return True
+                for fld in ('body', 'orelse', 'finalbody', 'handlers'):
+                    sub = getattr(x, fld, None)
+                    if not isinstance(sub, list):
+                        continue
+                    if fld == 'handlers':
+                        for h in sub:
+                            if rec(h.body, stack):
+                                return True
+                        continue
+                    nst = stack + [x] if isinstance(
+                        x, (ast.For, ast.While)) and fld == 'body' else stack
+                    if rec(sub, nst):
+                        return True
+            return False
+        rec(f.node.body, [])
+        return out
+
+    def validated_before(f, cfg, w, esc):
+        loops = [l for l in loops_around(f, w) if isinstance(l, ast.For)]
+        if not loops:
+            return False
+        lw = loops[-1]
+        roots = {x.id for x in ast.walk(lw.iter) if isinstance(x, ast.Name)}
+        excs = {e.exc for e in esc}
+        for lv in walk_no_nested(f.node):
+            if not isinstance(lv, ast.For) or lv is lw:
+                continue
+            if not roots & {x.id for x in ast.walk(lv.iter)
+                            if isinstance(x, ast.Name)}:
+                continue
+            if not cfg.dominates(lv, lw):
+                continue
+            body_stmts = [x for b in lv.body for x in ast.walk(b)
+                          if isinstance(x, ast.stmt)]
+            if any(stmt_writes(f, x) for x in body_stmts
+                   if not isinstance(x, (ast.If, ast.For, ast.While,
+                                         ast.Try, ast.With))):
+                continue
+            raised = set()
+            for x in body_stmts:
+                if isinstance(x, ast.Raise) and x.exc is not None:
+                    c = x.exc.func if isinstance(x.exc, ast.Call) else x.exc
+                    raised.add((dotted(c) or '').split('.')[-1])
+            if raised & excs:
+                return True
+        return False
+
     for f in funcs:
         r1.sites += 1
         r1.functions.add(f.fq)
@@ -253,9 +308,14 @@ def run(repo, rep, tier):
                        if judged(e)]
                 if s is w:
                     # the write call itself, repeated in a loop: its own
-                    # refusals (already exists / not found) are what the
+                    # refusals (already exists / not found) are what a
                     # preceding validation loop checks - the accepted shape
-                    # 'validate everything, then only write'
+                    # is 'validate everything, then only write'.  The
+                    # validation loop must be there: a loop over the same
+                    # collection that dominates the writing loop, raises the
+                    # same exception class and does not write.
+                    if esc and not validated_before(f, cfg, w, esc):
+                        bad.append((w, s, esc[0]))
                     continue
                 if esc:
                     bad.append((w, s, esc[0]))
